@@ -1142,6 +1142,77 @@ def rule_collection_slices(rep: Report, ix: Index) -> None:
 
 
 # ============================================================================= entry
+def _state_items(S: FuncInfo) -> list[tuple[str | None, ast.expr]]:
+    """(key, value expression) pairs of the dictionary returned by a `state` getter: a
+    dictionary literal, possibly bound to a local name and extended by `d[key] = value`"""
+    rets = [r for r in ast.walk(S.node) if isinstance(r, ast.Return) and r.value is not None]
+    if len(rets) != 1:
+        raise AnalysisError(f"{S.ref}: expected exactly one return statement")
+    rv = rets[0].value
+    items: list[tuple[str | None, ast.expr]] = []
+    if isinstance(rv, ast.Dict):
+        return [(const_str(k), v) for k, v in zip(rv.keys, rv.values)]
+    if isinstance(rv, ast.Name):
+        found = False
+        for st in ast.walk(S.node):
+            if isinstance(st, ast.Assign) and len(st.targets) == 1:
+                t = st.targets[0]
+                if isinstance(t, ast.Name) and t.id == rv.id and isinstance(st.value, ast.Dict):
+                    found = True
+                    items += [(const_str(k), v) for k, v in zip(st.value.keys, st.value.values)]
+                elif isinstance(t, ast.Name) and t.id == rv.id and isinstance(st.value, ast.Call) and dotted(st.value.func) == "dict" and not st.value.args:
+                    found = True
+                    items += [(k.arg, k.value) for k in st.value.keywords]
+                elif isinstance(t, ast.Subscript) and isinstance(t.value, ast.Name) and t.value.id == rv.id:
+                    items.append((const_str(t.slice), st.value))
+        if found:
+            return items
+    raise AnalysisError(f"{S.ref}: the returned state is not a dictionary literal (possibly built stepwise) -- cannot read off its entries")
+
+
+def rule_exact_collapse(rep: Report, ix: Index) -> None:
+    """a reader property used by `state` may drop a leaf of the identity (e.g. `radius`
+    returns the bare outer radius) only on a branch whose condition implies the exact value
+    of the dropped leaf, and the constructor must fill the leaf with that very constant when
+    it is handed the collapsed form -- otherwise state -> from_state is not the identity"""
+    from ..gridleaf import LeafEval, constructor_defaults
+
+    base = ix.cls("pde/grids/base.py", "GridBase")
+    concrete = [c for c in ix.subclasses(base, strict=True) if not is_abstract(c) and c.module.rel.startswith("pde/grids/")]
+    n = 0
+    for c in concrete:
+        S = c.find_method("state", "getter")
+        for key, v in _state_items(S):
+            le = LeafEval(ix, c)
+            carried = le.ev(v, {})
+            for col in le.collapses:
+                n += 1
+                rep.saw("reader branches that drop identity leaves", f"{col.func.ref} under `{col.condition}` drops {[str(d) for d in col.dropped]}")
+                dflt = constructor_defaults(ix, c, key) if key else {}
+                for leaf in col.dropped:
+                    why = None
+                    if leaf not in col.exact:
+                        why = (
+                            f"the branch condition `{col.condition}` does not imply an exact value of {leaf} (only an exact comparison `== constant` does): "
+                            f"grids whose {leaf} merely satisfies the condition are restored with a different {leaf}"
+                        )
+                    elif leaf not in dflt:
+                        why = f"the constructor of {c.name} has no recognisable default for {leaf} when `{key}` is given in the collapsed form"
+                    elif dflt[leaf] != col.exact[leaf] or isinstance(dflt[leaf], tuple):
+                        why = f"the branch drops {leaf} when it equals {col.exact[leaf]!r}, but the constructor of {c.name} fills it with {dflt[leaf]!r} for the collapsed form of `{key}`"
+                    rep.oblige(f"{c.name}:state[{key}]:{col.prop} drops {leaf} only when it equals the constructor default", why is None, why or f"{leaf} == {col.exact.get(leaf)!r}")
+                    if why:
+                        rep.violation(
+                            "C14.lossy-collapse",
+                            f"{col.func.ref}::{leaf}",
+                            f"`{col.prop}` (stored by {c.name}.state under key `{key}`) drops {leaf} on a branch: {why}; from_state(g.state) / copy() / deepcopy do not reproduce the grid",
+                            line=col.line,
+                            cls=c.name,
+                        )
+            rep.sample({"class": c.name, "state key": key, "carries": str(carried)}) if key in ("radius",) else None
+    rep.note(f"exact-collapse rule: {n} reader branches that drop identity leaves were judged")
+
+
 def check(tier: str) -> Report:
     rep = Report("C14", tier, "other", "static: constructor may-dataflow vs state readers, key-table equality, dim/num_axes typing of component counts, symbolic slice recurrence")
     rep.explanation = (
@@ -1150,11 +1221,14 @@ def check(tier: str) -> Report:
         "state/from_state/constructor must coincide; copy/deepcopy/JSON/pickle must route through them. Fields: key tables of "
         "`attributes` vs consumption in `from_state`, inverse (de)serialiser pair per key, storage info key. Component counts: every "
         "X**rank / (X,)*rank / (X, X, *shape) must have X typed `dim`. Collections: the slice cursor is extracted as a symbolic "
-        "recurrence and must be cumulative in field order."
+        "recurrence and must be cumulative in field order. Exact-collapse rule: a reader property that drops a leaf on some branch (`radius` "
+        "returning the bare outer radius) must do so under a condition that implies the exact value of the leaf, equal to the constant the "
+        "constructor fills in for the collapsed form."
     )
     ix = get_index()
     info = rule_grid_state(rep, ix)
     rule_grid_routes(rep, ix, info)
+    rule_exact_collapse(rep, ix)
     tables = rule_field_attrs(rep, ix)
     rule_storage(rep, ix, tables)
     rule_component_counts(rep, ix)
@@ -1162,7 +1236,6 @@ def check(tier: str) -> Report:
     rep.assumptions += [
         "JSON float round-trip exactness is not decided",
         "a property setter/getter pair is coherent (the getter returns what the setter was given)",
-        "branches of reader properties (e.g. `radius`) drop only information implied by their condition",
         "value-preserving conversions: tuple/list/float/int/bool/np.array/.copy(); every other call is treated as lossy for coverage",
         "identifiers `rank`, `rank_*`, `*_rank` denote tensor ranks; `.dim` is the space dimension, `.num_axes`/len(shape|axes|periodic|...) the number of grid axes",
         "h5py/modelrunner/movie readers are not analysed beyond the shared (de)serialisers",
